@@ -73,8 +73,10 @@ impl<R: Read + Seek> ReadBox<&mut R> for EmsgBox {
             value,
         ) = match version {
             0 => {
-                let scheme_id_uri = read_null_terminated_utf8_string(reader)?;
-                let value = read_null_terminated_utf8_string(reader)?;
+                let limit = (start + size).saturating_sub(reader.stream_position()?);
+                let scheme_id_uri = read_null_terminated_utf8_string(reader, limit)?;
+                let limit = (start + size).saturating_sub(reader.stream_position()?);
+                let value = read_null_terminated_utf8_string(reader, limit)?;
                 (
                     reader.read_u32::<BigEndian>()?,
                     None,
@@ -85,15 +87,25 @@ impl<R: Read + Seek> ReadBox<&mut R> for EmsgBox {
                     value,
                 )
             }
-            1 => (
-                reader.read_u32::<BigEndian>()?,
-                Some(reader.read_u64::<BigEndian>()?),
-                None,
-                reader.read_u32::<BigEndian>()?,
-                reader.read_u32::<BigEndian>()?,
-                read_null_terminated_utf8_string(reader)?,
-                read_null_terminated_utf8_string(reader)?,
-            ),
+            1 => {
+                let timescale = reader.read_u32::<BigEndian>()?;
+                let presentation_time = reader.read_u64::<BigEndian>()?;
+                let event_duration = reader.read_u32::<BigEndian>()?;
+                let id = reader.read_u32::<BigEndian>()?;
+                let limit = (start + size).saturating_sub(reader.stream_position()?);
+                let scheme_id_uri = read_null_terminated_utf8_string(reader, limit)?;
+                let limit = (start + size).saturating_sub(reader.stream_position()?);
+                let value = read_null_terminated_utf8_string(reader, limit)?;
+                (
+                    timescale,
+                    Some(presentation_time),
+                    None,
+                    event_duration,
+                    id,
+                    scheme_id_uri,
+                    value,
+                )
+            }
             _ => return Err(Error::InvalidData("version must be 0 or 1")),
         };
 
@@ -156,9 +168,12 @@ impl<W: Write> WriteBox<&mut W> for EmsgBox {
     }
 }
 
-fn read_null_terminated_utf8_string<R: Read + Seek>(reader: &mut R) -> Result<String> {
+fn read_null_terminated_utf8_string<R: Read + Seek>(reader: &mut R, limit: u64) -> Result<String> {
     let mut bytes = Vec::new();
     loop {
+        if bytes.len() as u64 >= limit {
+            return Err(Error::InvalidData("emsg string not terminated"));
+        }
         let byte = reader.read_u8()?;
         bytes.push(byte);
         if byte == 0 {
